@@ -1474,6 +1474,303 @@ fn chan_domain(args: &Args) {
                          "monitor_failures": monitor_failures}));
 }
 
+// ------------------------------------------------------------------ life: refused setups and what follows
+
+const INITIAL_COMMITMENT_NUMBER: u64 = (1 << 48) - 1;
+
+fn coq_lop_setup(s: &Setup) -> String {
+    format!("LSetup {}", coq_setup(s))
+}
+
+/// One channel id on a real node: setup_channel attempts (refused for each modelled reason, or
+/// accepted), then sign_counterparty_commitment_tx_phase2 / validate_holder_commitment_tx_phase2
+/// for commitment 0, retries of the same setup, a later good setup.  Monitor: a commitment is
+/// only ever signed / accepted on a channel whose setup_channel call was accepted, and an
+/// accepted setup satisfies the setup bounds.
+fn life_domain(args: &Args) {
+    use lightning_signer::bitcoin::secp256k1::{ecdsa::Signature, Secp256k1};
+    use lightning_signer::channel::ChannelBase;
+    use lightning_signer::lightning::ln::chan_utils::{
+        make_funding_redeemscript, CommitmentTransaction, HTLCOutputInCommitment, TxCreationKeys,
+    };
+    use lightning_signer::util::test_utils::key::make_test_privkey;
+    let mut rng = Rng::new(args.seed ^ 0x11fe);
+    let release = !overflow_checks();
+    let secp = Secp256k1::new();
+    let mut dist: std::collections::BTreeMap<String, u64> = Default::default();
+    let (mut monitor_failures, mut accepted_commitments, mut refused_setups, mut requests_after_refusal) = (0u64, 0u64, 0u64, 0u64);
+    let allow_addr = lightning_signer::bitcoin::Address::p2wpkh(&make_test_bitcoin_pubkey(42), NETWORK);
+    let allowed = allow_addr.script_pubkey();
+    let foreign = lightning_signer::bitcoin::Address::p2wpkh(&make_test_bitcoin_pubkey(43), NETWORK).script_pubkey();
+    let reasons = ["good", "holder-delay-low", "holder-delay-high", "cp-delay-low", "cp-delay-high", "unsafe-type", "foreign-shutdown"];
+    for id in 0..args.n {
+        let (mind, maxd) = *rng.pick(&[(4u16, 2016u16), (144, 2016), (6, 6)]);
+        let onchain = rng.chance(1, 3);
+        let rules = match rng.below(8) {
+            0 => vec![("policy-channel-contest-delay-range-holder".to_string(), false, true)],
+            1 => vec![("policy-channel-safe-type".to_string(), false, true)],
+            _ => vec![],
+        };
+        let pol = Pol {
+            min_delay: mind,
+            max_delay: maxd,
+            max_channel_size_sat: 1_000_000_001,
+            max_htlcs: 1000,
+            max_htlc_value_sat: 16_777_216,
+            use_chain_state: false,
+            min_feerate: 253,
+            max_feerate: 333_333,
+            rules,
+        };
+        // the first setup: every reason in turn, `good` as the control
+        let reason = reasons[(id % reasons.len()) as usize];
+        let anchors = rng.chance(1, 2);
+        let is_outbound = rng.chance(2, 3);
+        let cv = *rng.pick(&[3_000_000u64, 1_000_000_000, 1_000_000_001]);
+        let push_sat = if is_outbound { *rng.pick(&[0u64, 10_000]) } else { 1_000_000 };
+        let good = Setup {
+            is_outbound,
+            channel_value_sat: cv,
+            push_value_msat: push_sat * 1000,
+            holder_delay: mind.max(6).min(maxd),
+            cp_delay: maxd.min(144).max(mind),
+            ctype: if anchors { 3 } else { 1 },
+            shutdown: *rng.pick(&[0u8, 1]),
+        };
+        let mut first = good.clone();
+        match reason {
+            "holder-delay-low" => first.holder_delay = mind.wrapping_sub(1),
+            "holder-delay-high" => first.holder_delay = maxd.wrapping_add(1),
+            "cp-delay-low" => first.cp_delay = mind.wrapping_sub(1),
+            "cp-delay-high" => first.cp_delay = maxd.wrapping_add(1),
+            "unsafe-type" => first.ctype = if anchors { 2 } else { 0 },
+            "foreign-shutdown" => first.shutdown = 2,
+            _ => {}
+        }
+        // a valid commitment 0 for this channel value (same weight for both types of a pair)
+        let w = weight(good.ctype, 0);
+        let (flo, fhi) = fee_window(pol.min_feerate, pol.max_feerate, w);
+        let fee = *rng.pick(&[flo, fhi, (flo + fhi) / 2]);
+        let (to_holder, to_cp) = if is_outbound {
+            (clamp64(cv as u128 - fee - push_sat as u128), push_sat)
+        } else {
+            (push_sat, clamp64(cv as u128 - fee - push_sat as u128))
+        };
+        let feerate = 253u32;
+        let cp_info = Info { cp_broadcaster: true, to_countersigner: to_holder, to_broadcaster: to_cp, offered: vec![], received: vec![], feerate };
+        let holder_info = Info { cp_broadcaster: false, to_countersigner: to_cp, to_broadcaster: to_holder, offered: vec![], received: vec![], feerate };
+
+        let mut seed = [0u8; 32];
+        seed[0] = (id % 251) as u8;
+        seed[1] = 0x1f;
+        let world = World::new(real_policy(&pol), seed, KeyDerivationStyle::Native);
+        let services = make_services(real_policy(&pol), onchain, &world);
+        let node = Arc::new(Node::new(world.config, &world.seed, vec![], services));
+        node.add_allowlist(&vec![allow_addr.to_string()]).expect("allowlist");
+        let peer = [2u8; 33];
+        let (channel_id, _) = node.new_channel(1 + id as u64, &peer, &node).expect("new_channel");
+        let script_of = |s: &Setup| match s.shutdown {
+            0 => None,
+            1 => Some(allowed.clone()),
+            _ => Some(foreign.clone()),
+        };
+        // plan: S = setup, C = counterparty commitment 0, H = holder commitment 0
+        let plan: Vec<(&str, Setup)> = vec![
+            ("setup", first.clone()),
+            ("sign-counterparty", first.clone()),
+            ("validate-holder", first.clone()),
+            ("setup-retry", first.clone()),
+            ("sign-counterparty", first.clone()),
+            ("setup-good", good.clone()),
+            ("sign-counterparty", good.clone()),
+            ("validate-holder", good.clone()),
+            ("setup-retry", first.clone()),
+        ];
+        let mut est = Est { next_holder: 0, next_cp_commit: 0, next_cp_revoke: 0, closed: false, cp_point: 0, cp_info_same: false, holder_info: 0 };
+        let cs = Chain { current_height: 0, funding_depth: 0, closing_depth: 0 };
+        let point = make_test_pubkey(10);
+        let mut accepted_setup: Option<Setup> = None;
+        let mut any_refused = false;
+        let (mut ops, mut obs, mut steps, mut viols): (Vec<String>, Vec<u64>, Vec<Value>, Vec<String>) = (vec![], vec![], vec![], vec![]);
+        for (what, s) in plan.iter() {
+            let (o, status): (u64, String) = if what.starts_with("setup") {
+                let setup = real_setup(s, script_of(s));
+                let r = catch_unwind(AssertUnwindSafe(|| {
+                    node.setup_channel(channel_id.clone(), None, setup.clone(), &DerivationPath::master())
+                }));
+                ops.push(coq_lop_setup(s));
+                match r {
+                    Err(_) => (1, "panic".to_string()),
+                    Ok(Ok(_)) => (0, String::new()),
+                    Ok(Err(e)) => (2, format!("{:?}: {}", e.code(), e.message())),
+                }
+            } else if *what == "sign-counterparty" {
+                ops.push(format!("LSignCp {} {} 0 {}", coq_est(&est), coq_chain(&cs), coq_info(&cp_info)));
+                let r = catch_unwind(AssertUnwindSafe(|| {
+                    node.with_channel(&channel_id, |chan| {
+                        chan.sign_counterparty_commitment_tx_phase2(&point, 0, feerate, to_holder, to_cp, vec![], vec![])
+                            .map(|_| ())
+                    })
+                }));
+                match r {
+                    Err(_) => (1, "panic".to_string()),
+                    Ok(Ok(_)) => (0, String::new()),
+                    Ok(Err(e)) => (2, format!("{:?}: {}", e.code(), e.message())),
+                }
+            } else {
+                ops.push(format!("LValidateHolder {} {} 0 {}", coq_est(&est), coq_chain(&cs), coq_info(&holder_info)));
+                // what the counterparty would send: its signature on our commitment 0 (only possible
+                // when the channel is ready; a stub gets a dummy signature and must refuse anyway)
+                let sig: Option<Signature> = catch_unwind(AssertUnwindSafe(|| {
+                    node.with_channel(&channel_id, |chan| {
+                        let pcp = chan.get_per_commitment_point(0)?;
+                        let holder = chan.keys.pubkeys().clone();
+                        let cp = chan.setup.counterparty_points.clone();
+                        let txkeys = TxCreationKeys::derive_new(
+                            &secp,
+                            &pcp,
+                            &holder.delayed_payment_basepoint,
+                            &holder.htlc_basepoint,
+                            &cp.revocation_basepoint,
+                            &cp.htlc_basepoint,
+                        );
+                        let params = chan.make_channel_parameters();
+                        let directed = params.as_holder_broadcastable();
+                        let mut htlcs: Vec<(HTLCOutputInCommitment, ())> = vec![];
+                        let mut ctx = CommitmentTransaction::new_with_auxiliary_htlc_data(
+                            INITIAL_COMMITMENT_NUMBER,
+                            to_holder,
+                            to_cp,
+                            holder.funding_pubkey,
+                            cp.funding_pubkey,
+                            txkeys,
+                            feerate,
+                            &mut htlcs,
+                            &directed,
+                        );
+                        if chan.setup.is_anchors() {
+                            ctx = ctx.with_non_zero_fee_anchors();
+                        }
+                        let redeem = make_funding_redeemscript(&holder.funding_pubkey, &cp.funding_pubkey);
+                        let trusted = ctx.trust();
+                        Ok(trusted.built_transaction().sign_counterparty_commitment(
+                            &make_test_privkey(104),
+                            &redeem,
+                            chan.setup.channel_value_sat,
+                            &secp,
+                        ))
+                    })
+                }))
+                .ok()
+                .and_then(|r| r.ok());
+                let dummy = Signature::from_compact(&[1u8; 64]).expect("sig");
+                let sig = sig.unwrap_or(dummy);
+                let r = catch_unwind(AssertUnwindSafe(|| {
+                    node.with_channel(&channel_id, |chan| {
+                        chan.validate_holder_commitment_tx_phase2(0, feerate, to_holder, to_cp, vec![], vec![], &sig, &[])
+                    })
+                }));
+                match r {
+                    Err(_) => (1, "panic".to_string()),
+                    Ok(Ok(_)) => (0, String::new()),
+                    Ok(Err(e)) => (2, format!("{:?}: {}", e.code(), e.message())),
+                }
+            };
+            *dist.entry(format!("{}:{}", what, o)).or_insert(0) += 1;
+            // ---- the property itself
+            if what.starts_with("setup") {
+                if o == 0 {
+                    let mut v: Vec<&'static str> = vec![];
+                    if !(s.ctype == 1 || s.ctype == 3) {
+                        v.push("unsafe commitment type accepted");
+                    }
+                    if s.cp_delay < mind || s.cp_delay > maxd {
+                        v.push("counterparty-selected contest delay outside policy accepted");
+                    }
+                    if s.holder_delay < mind || s.holder_delay > maxd {
+                        v.push("holder-selected contest delay outside policy accepted");
+                    }
+                    if s.shutdown == 2 {
+                        v.push("foreign shutdown script accepted");
+                    }
+                    for m in not_downgraded(&pol.rules, v) {
+                        viols.push(format!("{}: setup_channel answered Ok: {}", what, m));
+                    }
+                    if accepted_setup.is_none() {
+                        accepted_setup = Some(s.clone());
+                    }
+                } else {
+                    any_refused = true;
+                    refused_setups += 1;
+                }
+            } else {
+                if any_refused && accepted_setup.is_none() {
+                    requests_after_refusal += 1;
+                }
+                if o == 0 {
+                    accepted_commitments += 1;
+                    if accepted_setup.is_none() {
+                        viols.push(format!(
+                            "{}: commitment 0 accepted on a channel whose only setup_channel call(s) were refused ({})",
+                            what, reason
+                        ));
+                    }
+                    let case = Case {
+                        pol: pol.clone(),
+                        entry: (if onchain { 2 } else { 0 }) + (if *what == "validate-holder" { 1 } else { 0 }),
+                        est: est.clone(),
+                        setup: accepted_setup.clone().unwrap_or(s.clone()),
+                        cs: cs.clone(),
+                        n: 0,
+                        info: if *what == "validate-holder" { holder_info.clone() } else { cp_info.clone() },
+                    };
+                    let (rv, _) = reference_violations(&case, release);
+                    for m in not_downgraded(&pol.rules, rv) {
+                        viols.push(format!("{}: {}", what, m));
+                    }
+                    if *what == "sign-counterparty" {
+                        // state after a signed commitment 0: a second request is a retry with the same data
+                        est.next_cp_commit = 1;
+                        est.cp_point = 1;
+                        est.cp_info_same = true;
+                    } else {
+                        est.next_holder = 1;
+                        est.holder_info = 1;
+                    }
+                }
+            }
+            obs.push(o);
+            steps.push(json!({"request": what, "commitment_type": ctype_name(s.ctype),
+                "holder_selected_contest_delay": s.holder_delay, "counterparty_selected_contest_delay": s.cp_delay,
+                "holder_shutdown_script": (["none", "allowlisted", "foreign"][s.shutdown as usize]),
+                "observed": (["ok", "panic", "refused"][o as usize]), "status": status}));
+        }
+        if !viols.is_empty() {
+            monitor_failures += 1;
+        }
+        let coq = format!(
+            "(({}, {}, {}, {}), {}, {})",
+            profile_name(),
+            coq_rules(&pol.rules),
+            coq_pol(&pol),
+            coq_bool(onchain),
+            coq_list(&ops),
+            coq_nlist(&obs)
+        );
+        emit(
+            "CASE",
+            json!({"id": id, "kind": "life", "first_setup": reason, "validator": if onchain { "onchain" } else { "simple" },
+                   "policy": {"min_delay": mind, "max_delay": maxd, "filter_rules": pol.rules},
+                   "channel": {"is_outbound": is_outbound, "channel_value_sat": cv, "push_value_msat": good.push_value_msat,
+                               "commitment_0": {"feerate_per_kw": feerate, "to_holder_value_sat": to_holder, "to_counterparty_value_sat": to_cp}},
+                   "steps": steps, "monitor_violation": viols, "coq": coq}),
+        );
+    }
+    emit("STATS", json!({"kind": "life", "profile": profile_name(), "observed_distribution": dist,
+        "refused_setups": refused_setups, "commitment_requests_after_a_refused_setup": requests_after_refusal,
+        "accepted_commitments": accepted_commitments, "monitor_failures": monitor_failures}));
+}
+
 fn main() {
     std::panic::set_hook(Box::new(|_| {}));
     let argv: Vec<String> = std::env::args().collect();
@@ -1482,6 +1779,7 @@ fn main() {
         "commit" => commit(&args),
         "setup" => setup_domain(&args),
         "chan" => chan_domain(&args),
+        "life" => life_domain(&args),
         other => {
             eprintln!("unknown sub-domain {}", other);
             std::process::exit(2)
